@@ -5,6 +5,7 @@ package main
 
 import (
 	"go/types"
+	"strconv"
 
 	"golang.org/x/tools/go/ssa"
 )
@@ -150,25 +151,64 @@ func registerHash(p *Program) {
 		}
 		panic(unsupported("rlp.Encode into a non-native writer"))
 	}
-	// net/url escaping of path segments: identity unless a '%' (or, for escaping, a byte outside
-	// the unreserved set) is present; those cases are explored only when feasible
+	// net/url escaping of path segments, byte by byte: a concrete byte is escaped / unescaped as the
+	// real package does; a symbolic byte must be one that PathEscape leaves alone (the path is
+	// unsupported otherwise, where that is feasible)
 	I["net/url.PathUnescape"] = func(m *Machine, fr *Frame, fn *ssa.Function, a []Value) Value {
 		s := m.strArg(a[0])
-		m.checkTaint(s)
-		for _, c := range s.b {
-			if m.decide(m.tb.Eq(c, m.tb.Const('%', 8))) {
-				panic(unsupported("url.PathUnescape of a string containing '%'"))
+		var out []*Term
+		for i := 0; i < len(s.b); i++ {
+			c := s.b[i]
+			if c.IsConst() {
+				if byte(c.U64()) != '%' {
+					out = append(out, c)
+					continue
+				}
+				if i+2 > len(s.b)-1 {
+					panic(unsupported("url.PathUnescape: truncated escape"))
+				}
+				h1, h2 := s.b[i+1], s.b[i+2]
+				if !h1.IsConst() || !h2.IsConst() {
+					panic(unsupported("url.PathUnescape: symbolic escape digits"))
+				}
+				v, err := strconv.ParseUint(string([]byte{byte(h1.U64()), byte(h2.U64())}), 16, 8)
+				if err != nil {
+					panic(unsupported("url.PathUnescape: invalid escape"))
+				}
+				out = append(out, m.tb.Const(v, 8))
+				i += 2
+				continue
 			}
+			if m.decide(m.tb.Eq(c, m.tb.Const('%', 8))) {
+				panic(unsupported("url.PathUnescape of a string with a symbolic '%'"))
+			}
+			out = append(out, c)
 		}
-		return Tuple{s, Iface{}}
+		return Tuple{&Str{b: out}, Iface{}}
 	}
 	I["net/url.PathEscape"] = func(m *Machine, fr *Frame, fn *ssa.Function, a []Value) Value {
 		s := m.strArg(a[0])
-		if !s.IsConcrete() {
-			return &Str{b: s.b, tainted: true}
+		if s.IsConcrete() {
+			return m.mkStr(pathEscape(s.Concrete()))
 		}
-		return m.mkStr(pathEscape(s.Concrete()))
+		var out []*Term
+		for _, c := range s.b {
+			if c.IsConst() {
+				for _, e := range []byte(pathEscape(string([]byte{byte(c.U64())}))) {
+					out = append(out, m.tb.Const(uint64(e), 8))
+				}
+				continue
+			}
+			if !m.decide(m.alphabetConstraint(c, urlPathSafe)) {
+				panic(unsupported("url.PathEscape of a symbolic byte that needs escaping"))
+			}
+			out = append(out, c)
+		}
+		return &Str{b: out}
 	}
 }
+
+// bytes that url.PathEscape leaves unchanged
+const urlPathSafe = "abcdefghijklmnopqrstuvwxyzABCDEFGHIJKLMNOPQRSTUVWXYZ0123456789-_.~$&+=:@"
 
 func pathEscape(s string) string { return urlPathEscape(s) }
